@@ -10,6 +10,8 @@ pub mod c09;
 pub mod c10;
 pub mod c11;
 pub mod c13;
+pub mod c16;
+pub mod c18;
 
 pub fn harnesses() -> Vec<(&'static str, fn())> {
     let mut v: Vec<(&'static str, fn())> = vec![];
@@ -18,5 +20,7 @@ pub fn harnesses() -> Vec<(&'static str, fn())> {
     v.extend(c10::LIST.iter().cloned());
     v.extend(c11::LIST.iter().cloned());
     v.extend(c13::LIST.iter().cloned());
+    v.extend(c16::LIST.iter().cloned());
+    v.extend(c18::LIST.iter().cloned());
     v
 }
